@@ -848,12 +848,111 @@ def expectGetReads : List String := ["activeCode"]
     invocations (pushed and popped around a module's code by `importModule`); callDepth - 0 between
     invocations (raised and lowered around a call by `callFunction`'s own Go defer, also on the
     error and panic paths); inputGlobals/
-    globals - constant after construction (the harness passes no options to RunCode);
+    globals - `DSt` (host DATA converted by copy; `applyOptions` converts on every RunCode); for
+    host OBJECTS constant after construction;
     concAllowed/os - options, constant after construction; runMutex/cloneMutex - locks.
     A field that is not in this list is storage the model does not know of. -/
 def expectVmFields : List String :=
   ["activeCode", "activeFrame", "callDepth", "cloneMutex", "concAllowed", "fp", "frames", "globals", "halt",
    "importer", "importing", "inputGlobals", "ip", "loadedCode", "main", "modules", "os",
    "runMutex", "running", "sp", "stack", "startCount", "tmp"]
+
+/-! ## Host DATA globals, converted by copy (round 6)
+
+A host global that is plain Go data (`[]any`, `map[string]any`, `[]int`, …) - not an
+`object.Object` - is CONVERTED to a new Risor list/map by `applyOptions` (`object.AsObjects`),
+which runs at construction and at the start of every `RunCode`; `loadRootCode` then puts the
+objects of that conversion into the slots of the code object.  The converted objects are mutable
+and scripts update them in place, so when the conversion happens is observable.  Modelled: two
+data globals, `data` (a slice of ints) and `cfg` (a map with the entry `"n"`), histories of
+`RunCode` invocations that are or are not handed `WithGlobals` (with the same or with changed Go
+data) and whose scripts perform any in-place updates before they end - however they end. -/
+
+/-- the value of the data globals: the elements of `data` and the entry `cfg["n"]` -/
+structure DVal where
+  items : List Int := []
+  ctr : Int := 0
+deriving DecidableEq, Repr
+
+/-- an in-place update a script performs: `data.append(x)` / `cfg["n"] = cfg["n"] - 1` -/
+inductive DOp where
+  | app (x : Int)
+  | dec
+deriving DecidableEq, Repr
+
+def dApply (d : DVal) : DOp → DVal
+  | .app x => { d with items := d.items ++ [x] }
+  | .dec => { d with ctr := d.ctr - 1 }
+
+def dApplyAll (d : DVal) (ops : List DOp) : DVal := ops.foldl dApply d
+
+/-- one `RunCode` invocation as far as the data globals are concerned.  `give`: the Go data of a
+    `WithGlobals` option handed to this RunCode (`none`: no options at all, or only other options
+    such as `WithConcurrency`); `ops`: the updates the script has performed when it ends - with a
+    value, a runtime error at depth or a recovered panic, possibly half way through its updates. -/
+structure DInv where
+  give : Option DVal := none
+  ops : List DOp := []
+deriving DecidableEq, Repr
+
+/-- `input` = `vm.inputGlobals` (the host's Go data; no script can reach it, the conversion
+    copies); `conv` = the contents of the Risor objects in `vm.globals`, to which the slots of the
+    code object loaded last refer. -/
+structure DSt where
+  input : DVal
+  conv : DVal
+deriving DecidableEq, Repr
+
+/-- `vm.New(main, WithGlobals(d))` (or `vm.New(main)` followed by a first RunCode that is handed
+    them: `give`) -/
+def dNew (d : DVal) : DSt := { input := d, conv := d }
+
+/-- `applyOptions` as it is: the options are applied, then the input globals are converted -
+    unconditionally. -/
+def dApplyOptions (s : DSt) (give : Option DVal) : DSt :=
+  let input := give.getD s.input
+  { input := input, conv := input }
+
+/-- `RunCode`: options, reset, `loadRootCode` from `vm.globals`, the script's updates.  Second
+    component: what `data`/`cfg` hold when the invocation has ended (the script's last read, and
+    the host's `vm.Get` afterwards). -/
+def dRunCode (s : DSt) (v : DInv) : DSt × DVal :=
+  let s1 := dApplyOptions s v.give
+  let c := dApplyAll s1.conv v.ops
+  ({ s1 with conv := c }, c)
+
+def dAfterFrom (s : DSt) (h : List DInv) : DSt := h.foldl (fun s v => (dRunCode s v).1) s
+/-- the reused VM after the history `h` -/
+def dAfter (d0 : DVal) (h : List DInv) : DSt := dAfterFrom (dNew d0) h
+
+def dRunFrom (s : DSt) : List DInv → List DVal
+  | [] => []
+  | v :: rest => (dRunCode s v).2 :: dRunFrom (dRunCode s v).1 rest
+/-- what every invocation of the history sees on ONE VM constructed with the data `d0` -/
+def dRun (d0 : DVal) (h : List DInv) : List DVal := dRunFrom (dNew d0) h
+
+/-- the host's Go data after the history: changed only by the host (`WithGlobals`) -/
+def dCurrent (d0 : DVal) (h : List DInv) : DVal := h.foldl (fun d v => v.give.getD d) d0
+
+/-- **Spec**: the same invocation on a fresh VM constructed with the host's current Go data -/
+def dSpecAt (cur : DVal) (v : DInv) : DVal := (dRunCode (dNew cur) v).2
+
+def dSpecFrom (cur : DVal) : List DInv → List DVal
+  | [] => []
+  | v :: rest => dSpecAt cur v :: dSpecFrom (v.give.getD cur) rest
+
+/-- the forbidden variant (contrast): convert only when `WithGlobals` was among the options -/
+def dApplyOptionsDirty (s : DSt) : Option DVal → DSt
+  | some d => { input := d, conv := d }
+  | none => s
+
+def dRunCodeDirty (s : DSt) (v : DInv) : DSt × DVal :=
+  let s1 := dApplyOptionsDirty s v.give
+  let c := dApplyAll s1.conv v.ops
+  ({ s1 with conv := c }, c)
+
+def dRunDirtyFrom (s : DSt) : List DInv → List DVal
+  | [] => []
+  | v :: rest => (dRunCodeDirty s v).2 :: dRunDirtyFrom (dRunCodeDirty s v).1 rest
 
 end Risor.C07
